@@ -23,6 +23,7 @@ fn main() {
         "c04" => pv::byterun::run_c04(&args),
         "c12" => pv::c12::run(&args),
         "c19" => pv::c19::run(&args),
+        "c20" => pv::c20::run(&args),
         "c08" => pv::byterun::run_c08(&args),
         other => {
             eprintln!("unknown runner {other}");
